@@ -25,6 +25,35 @@ class ScriptedSocket(socket.socket):
         return c
 
 
+class ScriptedFile(io.BufferedIOBase):
+    """A binary file object whose read(n) returns fewer bytes than asked for, following a script of sizes (a buffered reader over a
+    pipe or a slow device may do that), then the rest in full reads, then b''.  seek/tell work on the whole stream."""
+
+    def __init__(self, stream: bytes, sizes):
+        self._s, self._pos, self._sizes = stream, 0, list(sizes)
+
+    def readable(self):
+        return True
+
+    def seekable(self):
+        return True
+
+    def seek(self, off, whence=0):
+        self._pos = {0: off, 1: self._pos + off, 2: len(self._s) + off}[whence]
+        return self._pos
+
+    def tell(self):
+        return self._pos
+
+    def read(self, n=-1):
+        want = len(self._s) - self._pos if n is None or n < 0 else n
+        if self._sizes:
+            want = min(want, self._sizes.pop(0))
+        out = self._s[self._pos:self._pos + want]
+        self._pos += len(out)
+        return out
+
+
 def cut(stream: bytes, sizes):
     """Mirror of Model/Framer.v [cut]."""
     out, i = [], 0
@@ -81,6 +110,9 @@ def run_generator(kind, k, stream: bytes, sizes, r=None, cap=None, trim=TRIM_LIT
         cap = len(stream) // 7 + 3
     if kind == 0:
         gen = ccsds_generator(stream, skip_header_bytes=k)
+    elif kind == 1 and r == "script":
+        # a file object delivering short reads: the chunks are exactly cut(stream, sizes), every one non-empty
+        gen = ccsds_generator(ScriptedFile(stream, sizes), skip_header_bytes=k, buffer_read_size_bytes=max(list(sizes) + [1]))
     elif kind == 1:
         gen = ccsds_generator(io.BytesIO(stream), skip_header_bytes=k, buffer_read_size_bytes=r)
     else:
